@@ -611,6 +611,10 @@ def run_history(case, ctx, compare_every=True, after_step=None):
                               "step %d %r raised %s but the Gfa changed:\n  %s"
                               % (si, st, out.cls(), "\n  ".join(d[:4])), prop="C08")
             shape.append("F:probe")
+            if after_step is not None and model.closed() and not model.unspecified_state():
+                ctx.count("judged_after_refused_call")
+                if after_step(g, model, st):
+                    return shape
             continue
         if verdict == "skip" or verdict == "unspec":
             ctx.count("steps_skipped_" + verdict)
@@ -662,6 +666,10 @@ def run_history(case, ctx, compare_every=True, after_step=None):
                               "step %d %r raised %s but the Gfa changed:\n  %s"
                               % (si, st, out.cls(), "\n  ".join(d[:4])), prop="C08")
             shape.append("F:" + kind)
+            if after_step is not None and model.closed() and not model.unspecified_state():
+                ctx.count("judged_after_refused_call")
+                if after_step(g, model, st):
+                    return shape
             continue
         # expected success
         if not out.ok:
